@@ -123,6 +123,35 @@ Proof.
   apply G in H. lia.
 Qed.
 
+Lemma pats_cover_match : forall big small f,
+  pats_cover big small = true -> pats_match small f = true -> pats_match big f = true.
+Proof.
+  intros big small f Hc Hm. unfold pats_cover in Hc. rewrite forallb_forall in Hc.
+  unfold pats_match in *. apply existsb_exists in Hm as [p [Hp Hpm]].
+  specialize (Hc p Hp). apply existsb_exists in Hc as [p' [Hp' Hcv]].
+  apply existsb_exists. exists p'. split; auto.
+  unfold pat_covers in Hcv. unfold pat_match in *.
+  apply andb_true_iff in Hcv as [A B]. apply andb_true_iff in Hpm as [C D].
+  apply String.eqb_eq in A, C. apply andb_true_iff. split.
+  - apply String.eqb_eq. congruence.
+  - destruct (snd p'); auto. destruct (snd p); [|discriminate].
+    apply String.eqb_eq in B, D. apply String.eqb_eq. congruence.
+Qed.
+
+Lemma pats_overlap_false : forall ps ps' f,
+  pats_overlap ps ps' = false -> pats_match ps f = true -> pats_match ps' f = false.
+Proof.
+  intros ps ps' f H Hm. destruct (pats_match ps' f) eqn:E; auto.
+  rewrite (pats_match_overlap _ _ _ Hm E) in H. discriminate.
+Qed.
+
+Lemma In_dep_cfgs : forall cfg qc dd qd, In dd (q_deps qc) -> find_q cfg (d_query dd) = Some qd ->
+  In qd (dep_cfgs cfg qc).
+Proof.
+  intros cfg qc dd qd Hd Hf. unfold dep_cfgs. apply in_concat.
+  exists [qd]. split; [|simpl; auto]. apply in_map_iff. exists dd. rewrite Hf. auto.
+Qed.
+
 (* ------------------------------------------------------------ what cfg_ok gives *)
 Section Clauses.
   Variable cfg : config.
@@ -174,11 +203,37 @@ Section Clauses.
     apply (filter_nil _ _ _ F5 dc Hd).
   Qed.
 
-  Lemma ok_soft_reads : forall qc f, In qc (queries cfg) ->
+  Lemma F6_parts :
+    concat (map (fun qc =>
+     if memoised qc then
+       concat (map (fun qw =>
+         if pats_overlap (q_reads qc) (q_writes qw) then [FWriteRead (q_name qw) (q_name qc)] else [])
+         (queries cfg)) ++
+       concat (map (fun dc =>
+         if pats_overlap (q_reads qc) (dv_parent_writes dc) then [FWriteRead (dv_name dc) (q_name qc)] else [])
+         (derivs cfg))
+     else []) (queries cfg)) = [] /\
+    concat (map (fun qc =>
+     concat (map (fun qd2 =>
+       (if pats_overlap (q_reads qc) (q_writes qd2) then [FWriteRead (q_name qd2) (q_name qc)] else []) ++
+       concat (map (fun qd1 =>
+         if pats_overlap (q_reads qd1) (q_writes qd2) then [FWriteRead (q_name qd2) (q_name qd1)] else [])
+         (dep_cfgs cfg qc))) (dep_cfgs cfg qc))) (queries cfg)) = [] /\
+    concat (map (fun qc =>
+     concat (map (fun qd =>
+       if pats_cover (q_writes qc) (q_writes qd) then []
+       else [FStructure ("by-products of nested call not listed for the caller " ++ q_name qc ++ " -> " ++ q_name qd)%string])
+       (dep_cfgs cfg qc))) (queries cfg)) = [].
+  Proof.
+    split_fail. apply app_eq_nil in F6 as [A B]. apply app_eq_nil in B as [B C]. auto.
+  Qed.
+
+  Lemma ok_memo_reads : forall qc f, In qc (queries cfg) -> memoised qc = true ->
     pats_match (q_reads qc) f = true -> pats_match (soft cfg) f = false.
   Proof.
-    intros qc f Hq Hm. split_fail.
-    pose proof (concat_map_nil _ _ _ _ F6 qc Hq) as G. simpl in G. apply app_eq_nil in G as [G1 G2].
+    intros qc f Hq Hmemo Hm. destruct F6_parts as [FA _].
+    pose proof (concat_map_nil _ _ _ _ FA qc Hq) as G. simpl in G. rewrite Hmemo in G.
+    apply app_eq_nil in G as [G1 G2].
     destruct (pats_match (soft cfg) f) eqn:E; auto. exfalso.
     unfold soft in E. rewrite pats_match_app in E. apply orb_true_iff in E as [E|E].
     - apply pats_match_concat in E as [qw [Hw Hmw]].
@@ -187,6 +242,35 @@ Section Clauses.
     - apply pats_match_concat in E as [dc [Hd Hmd]].
       pose proof (concat_map_nil _ _ _ _ G2 dc Hd) as G3. simpl in G3.
       rewrite (pats_match_overlap _ _ _ Hm Hmd) in G3. discriminate.
+  Qed.
+
+  Lemma ok_dep_caller : forall qc qd, In qc (queries cfg) -> In qd (dep_cfgs cfg qc) ->
+    pats_overlap (q_reads qc) (q_writes qd) = false.
+  Proof.
+    intros qc qd Hq Hd. destruct F6_parts as [_ [FC _]].
+    pose proof (concat_map_nil _ _ _ _ FC qc Hq) as G. simpl in G.
+    pose proof (concat_map_nil _ _ _ _ G qd Hd) as G2. simpl in G2. apply app_eq_nil in G2 as [G2 _].
+    destruct (pats_overlap (q_reads qc) (q_writes qd)); auto; discriminate.
+  Qed.
+
+  Lemma ok_dep_sibling : forall qc qd1 qd2, In qc (queries cfg) ->
+    In qd1 (dep_cfgs cfg qc) -> In qd2 (dep_cfgs cfg qc) ->
+    pats_overlap (q_reads qd1) (q_writes qd2) = false.
+  Proof.
+    intros qc qd1 qd2 Hq H1 H2. destruct F6_parts as [_ [FC _]].
+    pose proof (concat_map_nil _ _ _ _ FC qc Hq) as G. simpl in G.
+    pose proof (concat_map_nil _ _ _ _ G qd2 H2) as G2. simpl in G2. apply app_eq_nil in G2 as [_ G2].
+    pose proof (concat_map_nil _ _ _ _ G2 qd1 H1) as G3. simpl in G3.
+    destruct (pats_overlap (q_reads qd1) (q_writes qd2)); auto; discriminate.
+  Qed.
+
+  Lemma ok_dep_cover : forall qc qd, In qc (queries cfg) -> In qd (dep_cfgs cfg qc) ->
+    pats_cover (q_writes qc) (q_writes qd) = true.
+  Proof.
+    intros qc qd Hq Hd. destruct F6_parts as [_ [_ FI]].
+    pose proof (concat_map_nil _ _ _ _ FI qc Hq) as G. simpl in G.
+    pose proof (concat_map_nil _ _ _ _ G qd Hd) as G2. simpl in G2.
+    destruct (pats_cover (q_writes qc) (q_writes qd)); auto; discriminate.
   Qed.
 
   Lemma ok_derived : forall p, In p (soft cfg ++ writer_writes cfg) -> derived_pat p = true.
@@ -256,18 +340,55 @@ Section MachineProofs.
   Notation stp := (step cfg mesh value comb depsel post stores qeff epre esem dsem dpeff fresh).
   Notation exe := (exec cfg mesh value comb depsel post stores qeff epre esem dsem dpeff fresh).
 
-  Definition meq (x y : mesh) : Prop :=
-    forall f, pats_match (soft cfg) f = false -> get f x = get f y.
+  Definition meq_w (W : list fpat) (x y : mesh) : Prop :=
+    forall f, pats_match W f = false -> get f x = get f y.
+  Definition meq : mesh -> mesh -> Prop := meq_w (soft cfg).
 
-  Lemma meq_refl : forall x, meq x x.
-  Proof. intros x f _. auto. Qed.
-  Lemma meq_trans : forall x y z, meq x y -> meq y z -> meq x z.
-  Proof. intros x y z A B f Hf. rewrite (A f Hf). auto. Qed.
-
-  Lemma sem_meq : forall q qc a x y, find_q cfg q = Some qc -> meq x y -> sem q a x = sem q a y.
+  Lemma meq_w_refl : forall W x, meq_w W x x.
+  Proof. intros W x f _. auto. Qed.
+  Lemma meq_w_trans : forall W x y z, meq_w W x y -> meq_w W y z -> meq_w W x z.
+  Proof. intros W x y z A B f Hf. rewrite (A f Hf). auto. Qed.
+  Lemma meq_w_weaken : forall W W' x y,
+    (forall f, pats_match W f = true -> pats_match W' f = true) -> meq_w W x y -> meq_w W' x y.
   Proof.
-    intros q qc a x y Hq Hm. eapply H_reads; eauto. intros f Hf. apply Hm.
-    apply find_q_In in Hq as [Hq _]. eapply ok_soft_reads; eauto.
+    intros W W' x y H A f Hf. apply A. destruct (pats_match W f) eqn:E; auto.
+    apply H in E. congruence.
+  Qed.
+  Lemma meq_refl : forall x, meq x x.
+  Proof. apply meq_w_refl. Qed.
+  Lemma meq_trans : forall x y z, meq x y -> meq y z -> meq x z.
+  Proof. apply meq_w_trans. Qed.
+
+  (* by-products a call of q may add *)
+  Definition writes_of (q : string) : list fpat :=
+    match find_q cfg q with Some qc => q_writes qc | None => [] end.
+
+  Lemma pats_match_concat_true : forall (A : Type) (g : A -> list fpat) l x f,
+    In x l -> pats_match (g x) f = true -> pats_match (concat (map g l)) f = true.
+  Proof.
+    intros A g l x f Hx Hm. destruct (pats_match (concat (map g l)) f) eqn:E; auto.
+    rewrite (pats_match_concat_false _ _ _ _ _ E Hx) in Hm. discriminate.
+  Qed.
+
+  Lemma qwrites_soft : forall qc f, In qc (queries cfg) ->
+    pats_match (q_writes qc) f = true -> pats_match (soft cfg) f = true.
+  Proof.
+    intros qc f Hq Hm. unfold soft. rewrite pats_match_app.
+    rewrite (pats_match_concat_true _ q_writes _ _ _ Hq Hm). auto.
+  Qed.
+
+  Lemma writes_soft : forall q f, pats_match (writes_of q) f = true -> pats_match (soft cfg) f = true.
+  Proof.
+    intros q f. unfold writes_of. destruct (find_q cfg q) as [qc|] eqn:Hq; [|simpl; discriminate].
+    apply qwrites_soft. apply (proj1 (find_q_In _ _ _ Hq)).
+  Qed.
+
+  (* the value of a memoised query survives by-products *)
+  Lemma sem_meq : forall q qc a x y, find_q cfg q = Some qc -> memoised qc = true ->
+    meq x y -> sem q a x = sem q a y.
+  Proof.
+    intros q qc a x y Hq Hmemo Hm. eapply H_reads; eauto. intros f Hf. apply Hm.
+    apply find_q_In in Hq as [Hq _]. eapply ok_memo_reads; eauto.
   Qed.
 
   Lemma qeff_meq : forall q qc a x, find_q cfg q = Some qc -> meq x (qeff q a x).
@@ -301,22 +422,35 @@ Section MachineProofs.
                           o_tab ob = o_tab ob' -> o = o';
     I_tab : forall o ob, world st o = Some ob -> world st (o_tab ob) <> None }.
 
-  Definition ext (st st' : state) : Prop :=
+  Definition ext_w (W : list fpat) (st st' : state) : Prop :=
     forall o, match world st o, world st' o with
-              | Some ob, Some ob' => o_tab ob = o_tab ob' /\ meq (o_mesh ob) (o_mesh ob')
+              | Some ob, Some ob' => o_tab ob = o_tab ob' /\ meq_w W (o_mesh ob) (o_mesh ob')
               | None, None => True
               | _, _ => False
               end.
+  Definition ext : state -> state -> Prop := ext_w (soft cfg).
+
+  Lemma ext_w_refl : forall W st, ext_w W st st.
+  Proof. intros W st o. destruct (world st o); auto. split; auto. apply meq_w_refl. Qed.
+
+  Lemma ext_w_trans : forall W a b c, ext_w W a b -> ext_w W b c -> ext_w W a c.
+  Proof.
+    intros W a b c A B o. specialize (A o). specialize (B o).
+    destruct (world a o), (world b o), (world c o); try tauto.
+    destruct A, B. split; [congruence|]. eapply meq_w_trans; eauto.
+  Qed.
+
+  Lemma ext_w_weaken : forall W W' a b,
+    (forall f, pats_match W f = true -> pats_match W' f = true) -> ext_w W a b -> ext_w W' a b.
+  Proof.
+    intros W W' a b H A o. specialize (A o). destruct (world a o), (world b o); try tauto.
+    destruct A. split; auto. eapply meq_w_weaken; eauto.
+  Qed.
 
   Lemma ext_refl : forall st, ext st st.
-  Proof. intros st o. destruct (world st o); auto. split; auto. apply meq_refl. Qed.
-
+  Proof. apply ext_w_refl. Qed.
   Lemma ext_trans : forall a b c, ext a b -> ext b c -> ext a c.
-  Proof.
-    intros a b c A B o. specialize (A o). specialize (B o).
-    destruct (world a o), (world b o), (world c o); try tauto.
-    destruct A, B. split; [congruence|]. eapply meq_trans; eauto.
-  Qed.
+  Proof. apply ext_w_trans. Qed.
 
   Lemma Inv_init : Inv (@init mesh value).
   Proof.
@@ -342,11 +476,13 @@ Section MachineProofs.
   Qed.
 
   Lemma Inv_lru_store : forall st qc q o a v ob,
-    Inv st -> find_q cfg q = Some qc -> world st o = Some ob -> v = sem q a (o_mesh ob) ->
+    Inv st -> find_q cfg q = Some qc -> world st o = Some ob ->
+    (has_lru qc = true -> v = sem q a (o_mesh ob)) ->
     Inv (lru_store st qc q o a v).
   Proof.
-    intros st qc q o a v ob I Hq Hw Hv. unfold lru_store.
+    intros st qc q o a v ob I Hq Hw Hv'. unfold lru_store.
     destruct (q_lru qc) as [ms|] eqn:El; auto.
+    assert (v = sem q a (o_mesh ob)) as Hv by (apply Hv'; unfold has_lru; rewrite El; auto).
     destruct I as [Ic Is Ish It]. constructor; simpl; auto.
     intros q' k v' Hin. destruct (String.eqb q' q) eqn:E.
     - apply String.eqb_eq in E. subst q'. apply lru_put_In in Hin as [Hin|Hin].
@@ -357,12 +493,14 @@ Section MachineProofs.
   Qed.
 
   Lemma Inv_slot_store : forall st qc q o a v ob,
-    Inv st -> find_q cfg q = Some qc -> world st o = Some ob -> v = sem q a (o_mesh ob) ->
+    Inv st -> find_q cfg q = Some qc -> world st o = Some ob ->
+    (has_slot qc = true -> v = sem q a (o_mesh ob)) ->
     Inv (slot_store st qc q (o_tab ob) a v).
   Proof.
-    intros st qc q o a v ob I Hq Hw Hv. unfold slot_store.
+    intros st qc q o a v ob I Hq Hw Hv'. unfold slot_store.
     destruct (q_slot qc) as [sl|] eqn:El; auto.
     assert (has_slot qc = true) as Hs by (unfold has_slot; rewrite El; auto).
+    pose proof (Hv' Hs) as Hv.
     destruct I as [Ic Is Ish It]. constructor; simpl; auto.
     intros o' ob' q' a' v' Hw' Hsl.
     destruct (Nat.eqb (o_tab ob') (o_tab ob) && String.eqb q' q) eqn:E.
@@ -382,12 +520,12 @@ Section MachineProofs.
       destruct (Nat.eqb (fst k) o) eqn:E.
       + apply Nat.eqb_eq in E. rewrite E in *. rewrite Hw in C. inversion C. subst ob'.
         rewrite Hw. exists qc, (mkobj x (o_tab ob)). simpl. repeat split; auto.
-        rewrite D. eapply sem_meq; eauto.
+        rewrite D. eapply sem_meq; eauto. unfold memoised. rewrite B. auto.
       + exists qc, ob'. auto.
     - intros o' ob' q a v Hw' Hsl. destruct (Nat.eqb o' o) eqn:E.
       + apply Nat.eqb_eq in E. subst o'. rewrite Hw in Hw'. inversion Hw'. subst ob'. simpl in *.
         destruct (Is _ _ _ _ _ Hw Hsl) as [qc [A [B C]]]. exists qc. repeat split; auto.
-        rewrite C. eapply sem_meq; eauto.
+        rewrite C. eapply sem_meq; eauto. unfold memoised. rewrite B. apply orb_true_r.
       + eauto.
     - destruct Ish as [Ish|Ish]; auto. right. intros o1 o2 ob1 ob2 H1 H2 Ht.
       assert (forall o' ob', (if Nat.eqb o' o then match world st o' with
@@ -408,26 +546,26 @@ Section MachineProofs.
       destruct (world st (o_tab ob0)); [discriminate|tauto].
   Qed.
 
-  Lemma ext_set_mesh : forall st o ob x,
-    world st o = Some ob -> meq (o_mesh ob) x -> ext st (set_mesh st o x).
+  Lemma ext_w_set_mesh : forall W st o ob x,
+    world st o = Some ob -> meq_w W (o_mesh ob) x -> ext_w W st (set_mesh st o x).
   Proof.
-    intros st o ob x Hw Hm o'. simpl. destruct (Nat.eqb o' o) eqn:E.
+    intros W st o ob x Hw Hm o'. simpl. destruct (Nat.eqb o' o) eqn:E.
     - apply Nat.eqb_eq in E. subst o'. rewrite Hw. simpl. auto.
-    - destruct (world st o'); auto. split; auto. apply meq_refl.
+    - destruct (world st o'); auto. split; auto. apply meq_w_refl.
   Qed.
 
-  Lemma ext_same_world : forall (st st' : state), (forall o, world st' o = world st o) -> ext st st'.
+  Lemma ext_w_same_world : forall W (st st' : state), (forall o, world st' o = world st o) -> ext_w W st st'.
   Proof.
-    intros st st' H o. rewrite H. destruct (world st o); auto. split; auto. apply meq_refl.
+    intros W st st' H o. rewrite H. destruct (world st o); auto. split; auto. apply meq_w_refl.
   Qed.
   Lemma world_lru_store : forall (st : state) qc q o a v o', world (lru_store st qc q o a v) o' = world st o'.
   Proof. intros. unfold lru_store. destruct (q_lru qc); auto. Qed.
   Lemma world_slot_store : forall (st : state) qc q t a v o', world (slot_store st qc q t a v) o' = world st o'.
   Proof. intros. unfold slot_store. destruct (q_slot qc); auto. Qed.
-  Lemma ext_lru_store : forall st qc q o a v, ext st (lru_store st qc q o a v).
-  Proof. intros. apply ext_same_world. intros. apply world_lru_store. Qed.
-  Lemma ext_slot_store : forall st qc q t a v, ext st (slot_store st qc q t a v).
-  Proof. intros. apply ext_same_world. intros. apply world_slot_store. Qed.
+  Lemma ext_w_lru_store : forall W st qc q o a v, ext_w W st (lru_store st qc q o a v).
+  Proof. intros. apply ext_w_same_world. intros. apply world_lru_store. Qed.
+  Lemma ext_w_slot_store : forall W st qc q t a v, ext_w W st (slot_store st qc q t a v).
+  Proof. intros. apply ext_w_same_world. intros. apply world_slot_store. Qed.
 
   (* --- one call --- *)
   Definition ranked (n : nat) (q : string) : Prop :=
@@ -435,64 +573,85 @@ Section MachineProofs.
 
   Definition ev_ok (f : state -> oid -> string -> argv -> bool -> state * option value) (n : nat) : Prop :=
     forall st o q a force, Inv st -> ranked n q ->
-      Inv (fst (f st o q a force)) /\ ext st (fst (f st o q a force)) /\
+      Inv (fst (f st o q a force)) /\ ext_w (writes_of q) st (fst (f st o q a force)) /\
       (forall qc ob, find_q cfg q = Some qc -> world st o = Some ob ->
                      snd (f st o q a force) = Some (sem q a (o_mesh ob))).
 
+  Definition Wds (ds : list (string * argv * bool)) : list fpat :=
+    concat (map (fun d => writes_of (fst (fst d))) ds).
+
+  (* no call of the list writes what another one reads *)
+  Definition indep (ds : list (string * argv * bool)) : Prop :=
+    forall d1 d2 qd1 qd2, In d1 ds -> In d2 ds ->
+      find_q cfg (fst (fst d1)) = Some qd1 -> find_q cfg (fst (fst d2)) = Some qd2 ->
+      pats_overlap (q_reads qd1) (q_writes qd2) = false.
+
   Lemma eval_list_ok : forall f n, ev_ok f n -> forall ds st o, Inv st ->
     Forall (fun d => ranked n (fst (fst d))) ds ->
-    Inv (fst (eval_list f st o ds)) /\ ext st (fst (eval_list f st o ds)) /\
+    Inv (fst (eval_list f st o ds)) /\ ext_w (Wds ds) st (fst (eval_list f st o ds)) /\
     (forall ob, world st o = Some ob ->
-       Forall (fun d => find_q cfg (fst (fst d)) <> None) ds ->
+       Forall (fun d => find_q cfg (fst (fst d)) <> None) ds -> indep ds ->
        snd (eval_list f st o ds) = map (fun d => Some (sem (fst (fst d)) (snd (fst d)) (o_mesh ob))) ds).
   Proof.
     intros f n Hf. induction ds as [|[[q a] fl] r IH]; intros st o I Hr.
-    - simpl. split; [auto|split; [apply ext_refl|intros; auto]].
+    - simpl. split; [auto|split; [apply ext_w_refl|intros; auto]].
     - simpl. inversion Hr as [|? ? Hr1 Hr2]. subst. simpl in Hr1.
       destruct (Hf st o q a fl I Hr1) as [I1 [E1 V1]].
       destruct (f st o q a fl) as [st1 v] eqn:Ef. simpl in *.
       destruct (IH st1 o I1 Hr2) as [I2 [E2 V2]].
       destruct (eval_list f st1 o r) as [st2 vs] eqn:El. simpl in *.
       split; [auto|split].
-      + eapply ext_trans; eauto.
-      + intros ob Hw Hfound. inversion Hfound as [|? ? Hf1 Hf2]. subst. simpl in Hf1.
+      + unfold Wds. simpl. fold (Wds r). eapply ext_w_trans.
+        * eapply ext_w_weaken; [|exact E1]. intros f0 H0. rewrite pats_match_app. rewrite H0. auto.
+        * eapply ext_w_weaken; [|exact E2]. intros f0 H0. rewrite pats_match_app. rewrite H0.
+          apply orb_true_r.
+      + intros ob Hw Hfound Hind. inversion Hfound as [|? ? Hf1 Hf2]. subst. simpl in Hf1.
         destruct (find_q cfg q) as [qc|] eqn:Hq; [|tauto].
         rewrite (V1 qc ob eq_refl Hw). f_equal.
         pose proof (E1 o) as Eo. rewrite Hw in Eo.
         destruct (world st1 o) as [ob1|] eqn:Hw1; [|tauto]. destruct Eo as [_ Hm].
-        rewrite (V2 ob1 eq_refl Hf2). apply map_ext_in. intros [[q' a'] f'] Hin. simpl.
-        rewrite Forall_forall in Hf2. specialize (Hf2 _ Hin). simpl in Hf2.
-        destruct (find_q cfg q') as [qc'|] eqn:Hq'; [|tauto].
-        f_equal. symmetry. eapply sem_meq; eauto.
+        assert (indep r) as Hind2.
+        { intros d1 d2 qd1 qd2 H1 H2. apply Hind; simpl; auto. }
+        rewrite (V2 ob1 eq_refl Hf2 Hind2). apply map_ext_in. intros [[q' a'] f'] Hin. simpl.
+        rewrite Forall_forall in Hf2. pose proof (Hf2 _ Hin) as Hq'. simpl in Hq'.
+        destruct (find_q cfg q') as [qc'|] eqn:Hq''; [|tauto].
+        f_equal. eapply H_reads; eauto. intros f0 Hf0. symmetry. apply Hm.
+        unfold writes_of. rewrite Hq.
+        eapply pats_overlap_false; [|exact Hf0].
+        apply (Hind (q', a', f') (q, a, fl) qc' qc); simpl; auto.
   Qed.
 
   Lemma all_some_map : forall (A : Type) (g : A -> value) l,
     all_some (map (fun d => Some (g d)) l) = Some (map g l).
   Proof. induction l; simpl; auto. rewrite IHl. auto. Qed.
 
-  Lemma sel_deps_ranked : forall q qc a n, find_q cfg q = Some qc -> q_rank qc < S n ->
-    Forall (fun d => ranked n (fst (fst d)) /\ find_q cfg (fst (fst d)) <> None) (sel_deps depsel qc q a).
+  Lemma sel_deps_props : forall q qc a n, find_q cfg q = Some qc -> q_rank qc < S n ->
+    Forall (fun d => ranked n (fst (fst d)) /\
+                     exists qd, find_q cfg (fst (fst d)) = Some qd /\ In qd (dep_cfgs cfg qc))
+           (sel_deps depsel qc q a).
   Proof.
     intros q qc a n Hq Hr. apply Forall_forall. intros d Hd. unfold sel_deps in Hd.
     apply filter_In in Hd as [_ Hd]. unfold dep_allowed in Hd.
     apply existsb_exists in Hd as [dd [Hdd Hm]]. apply andb_true_iff in Hm as [Hm _].
     apply String.eqb_eq in Hm. apply find_q_In in Hq as [Hq _].
-    destruct (ok_deps cfg Hok qc dd Hq Hdd) as [qd [Hfd Hlt]]. rewrite Hm in Hfd.
+    destruct (ok_deps cfg Hok qc dd Hq Hdd) as [qd [Hfd Hlt]].
+    pose proof (In_dep_cfgs cfg qc dd qd Hdd Hfd) as Hin. rewrite Hm in Hfd.
     split.
     - intros qc' Hq'. rewrite Hfd in Hq'. inversion Hq'. subst. lia.
-    - rewrite Hfd. discriminate.
+    - exists qd. auto.
   Qed.
 
   Lemma eval_ok : forall n, ev_ok (ev n) n.
   Proof.
     induction n as [|n IHn]; intros st o q a force I Hr.
-    - simpl. split; [auto|split; [apply ext_refl|]].
+    - simpl. split; [auto|split; [apply ext_w_refl|]].
       intros qc ob Hq _. apply Hr in Hq. lia.
     - simpl. destruct (find_q cfg q) as [qc|] eqn:Hq;
-        [|simpl; split; [auto|split; [apply ext_refl|intros; discriminate]]].
+        [|simpl; split; [auto|split; [apply ext_w_refl|intros; discriminate]]].
       destruct (world st o) as [ob|] eqn:Hw;
-        [|simpl; split; [auto|split; [apply ext_refl|intros; discriminate]]].
+        [|simpl; split; [auto|split; [apply ext_w_refl|intros; discriminate]]].
       pose proof (Hr qc Hq) as Hrank.
+      pose proof (proj1 (find_q_In _ _ _ Hq)) as Hqin.
       destruct (if has_lru qc then lru_find (o, a) (caches st q) else None) as [v|] eqn:Hl.
       { (* lru hit *)
         destruct (has_lru qc) eqn:Hh; [|discriminate].
@@ -500,7 +659,7 @@ Section MachineProofs.
         simpl in C, D. rewrite Hw in C. inversion C. subst ob'. simpl.
         split; [|split].
         - eapply Inv_lru_store; eauto.
-        - apply ext_lru_store.
+        - apply ext_w_lru_store.
         - intros qc0 ob0 H1 H2. inversion H2. subst. auto. }
       destruct (if force then None else slot_hit st ob qc q a) as [v0|] eqn:Hs.
       { (* slot hit *)
@@ -513,51 +672,80 @@ Section MachineProofs.
         assert (has_slot qc = true) as Hhs by (unfold has_slot; rewrite Esl; auto).
         assert (proj (q_relevant qc) a0 = proj (q_relevant qc) a) as Hp.
         { eapply proj_incl; [|exact Eo]. intros k Hk.
-          pose proof (ok_slotkeys cfg Hok qc k (proj1 (find_q_In _ _ _ Hq)) Hhs Hk) as G.
+          pose proof (ok_slotkeys cfg Hok qc k Hqin Hhs Hk) as G.
           unfold slot_keys in G. rewrite Esl in G. auto. }
         assert (post q a v0 = sem q a (o_mesh ob)) as Hv.
         { rewrite C. rewrite (H_relevant q qc a0 a (o_mesh ob) Hq Hp). apply H_post. }
         simpl. split; [|split].
         - eapply Inv_lru_store; eauto.
-        - apply ext_lru_store.
+        - apply ext_w_lru_store.
         - intros qc0 ob0 H1 H2. inversion H2. subst. rewrite Hv. auto. }
       (* computed *)
-      pose proof (sel_deps_ranked q qc a n Hq Hrank) as Hds.
-      assert (Forall (fun d => ranked n (fst (fst d))) (sel_deps depsel qc q a)) as Hds1.
+      set (ds := sel_deps depsel qc q a) in *.
+      pose proof (sel_deps_props q qc a n Hq Hrank) as Hds. fold ds in Hds.
+      assert (Forall (fun d => ranked n (fst (fst d))) ds) as Hds1.
       { eapply Forall_impl; [|exact Hds]. simpl. tauto. }
-      assert (Forall (fun d => find_q cfg (fst (fst d)) <> None) (sel_deps depsel qc q a)) as Hds2.
-      { eapply Forall_impl; [|exact Hds]. simpl. tauto. }
-      destruct (eval_list_ok _ _ IHn (sel_deps depsel qc q a) st o I Hds1) as [I1 [E1 V1]].
-      destruct (eval_list (ev n) st o (sel_deps depsel qc q a)) as [st1 vs] eqn:El. simpl in *.
-      specialize (V1 ob Hw Hds2). subst vs. rewrite all_some_map.
+      assert (Forall (fun d => find_q cfg (fst (fst d)) <> None) ds) as Hds2.
+      { eapply Forall_impl; [|exact Hds]. simpl. intros d [_ [qd [Hqd _]]]. rewrite Hqd. discriminate. }
+      assert (forall d qd, In d ds -> find_q cfg (fst (fst d)) = Some qd -> In qd (dep_cfgs cfg qc)) as Hdc.
+      { intros d qd Hd Hqd. rewrite Forall_forall in Hds. destruct (Hds d Hd) as [_ [qd' [A B]]].
+        rewrite A in Hqd. inversion Hqd. subst. auto. }
+      assert (indep ds) as Hind.
+      { intros d1 d2 qd1 qd2 H1 H2 Q1 Q2. eapply ok_dep_sibling; eauto. }
+      assert (forall f, pats_match (Wds ds) f = true -> pats_match (q_writes qc) f = true) as Hcov.
+      { intros f Hf. unfold Wds in Hf. apply pats_match_concat in Hf as [d [Hd Hm]].
+        unfold writes_of in Hm. destruct (find_q cfg (fst (fst d))) as [qd|] eqn:Hqd; [|simpl in Hm; discriminate].
+        eapply pats_cover_match; [|exact Hm]. eapply ok_dep_cover; eauto. }
+      assert (forall f, pats_match (q_reads qc) f = true -> pats_match (Wds ds) f = false) as Hrd.
+      { intros f Hf. destruct (pats_match (Wds ds) f) eqn:E; auto. exfalso.
+        unfold Wds in E. apply pats_match_concat in E as [d [Hd Hm]].
+        unfold writes_of in Hm. destruct (find_q cfg (fst (fst d))) as [qd|] eqn:Hqd; [|simpl in Hm; discriminate].
+        pose proof (ok_dep_caller cfg Hok qc qd Hqin (Hdc d qd Hd Hqd)) as Hov.
+        rewrite (pats_overlap_false _ _ _ Hov Hf) in Hm. discriminate. }
+      assert (forall f, pats_match (q_writes qc) f = true -> pats_match (soft cfg) f = true) as Hqs.
+      { intros f. apply qwrites_soft. auto. }
+      destruct (eval_list_ok _ _ IHn ds st o I Hds1) as [I1 [E1 V1]].
+      destruct (eval_list (ev n) st o ds) as [st1 vs] eqn:El. simpl in *.
+      specialize (V1 ob Hw Hds2 Hind). subst vs. rewrite all_some_map.
       pose proof (E1 o) as Eo. rewrite Hw in Eo.
       destruct (world st1 o) as [ob1|] eqn:Hw1; [|tauto]. destruct Eo as [Et Hm].
       assert (comb q a (o_mesh ob1)
-                (map (fun d => sem (fst (fst d)) (snd (fst d)) (o_mesh ob)) (sel_deps depsel qc q a))
+                (map (fun d => sem (fst (fst d)) (snd (fst d)) (o_mesh ob)) ds)
               = sem q a (o_mesh ob)) as Hv.
-      { eapply H_comb; eauto. intros f Hf. symmetry. apply Hm.
-        eapply ok_soft_reads; eauto. apply (proj1 (find_q_In _ _ _ Hq)). }
+      { unfold ds. eapply H_comb; eauto. intros f Hf. symmetry. apply Hm. auto. }
       rewrite Hv.
-      pose proof (qeff_meq q qc a (o_mesh ob1) Hq) as Hm2.
-      pose proof (Inv_set_mesh st1 o ob1 _ I1 Hw1 Hm2) as I2.
-      pose proof (ext_set_mesh st1 o ob1 _ Hw1 Hm2) as E2.
       set (x2 := qeff q a (o_mesh ob1)) in *.
+      assert (meq_w (q_writes qc) (o_mesh ob1) x2) as Hm2.
+      { intros f Hf. symmetry. unfold x2. eapply H_qeff; eauto. }
+      assert (meq (o_mesh ob1) x2) as Hm2s by (eapply meq_w_weaken; [exact Hqs|exact Hm2]).
+      pose proof (Inv_set_mesh st1 o ob1 _ I1 Hw1 Hm2s) as I2.
       set (st2 := set_mesh st1 o x2) in *.
+      assert (ext_w (q_writes qc) st st2) as E2.
+      { eapply ext_w_trans.
+        - eapply ext_w_weaken; [exact Hcov|exact E1].
+        - unfold st2. eapply ext_w_set_mesh; eauto. }
       assert (world st2 o = Some (mkobj x2 (o_tab ob1))) as Hw2.
       { unfold st2. simpl. rewrite Nat.eqb_refl. rewrite Hw1. auto. }
-      assert (sem q a (o_mesh ob) = sem q a x2) as Hv2.
-      { eapply sem_meq; eauto. eapply meq_trans; eauto. }
+      assert (memoised qc = true -> sem q a (o_mesh ob) = sem q a x2) as Hv2.
+      { intros Hmemo. eapply sem_meq; eauto. eapply meq_trans; [|exact Hm2s].
+        eapply meq_w_weaken; [|exact Hm]. intros f Hf. auto. }
+      unfold writes_of. rewrite Hq.
       destruct (stores q a (sem q a (o_mesh ob))).
-      + pose proof (Inv_slot_store st2 qc q o a _ _ I2 Hq Hw2 Hv2) as I3. simpl in I3.
+      + assert (Inv (slot_store st2 qc q (o_tab ob1) a (sem q a (o_mesh ob)))) as I3.
+        { apply (Inv_slot_store st2 qc q o a _ (mkobj x2 (o_tab ob1)) I2 Hq Hw2).
+          intros Hh. simpl. apply Hv2. unfold memoised. rewrite Hh. apply orb_true_r. }
         assert (world (slot_store st2 qc q (o_tab ob1) a (sem q a (o_mesh ob))) o
                 = Some (mkobj x2 (o_tab ob1))) as Hw3 by (rewrite world_slot_store; auto).
-        pose proof (Inv_lru_store _ qc q o a _ _ I3 Hq Hw3 Hv2) as I4.
+        assert (Inv (lru_store (slot_store st2 qc q (o_tab ob1) a (sem q a (o_mesh ob))) qc q o a
+                               (sem q a (o_mesh ob)))) as I4.
+        { apply (Inv_lru_store _ qc q o a _ (mkobj x2 (o_tab ob1)) I3 Hq Hw3).
+          intros Hh. simpl. apply Hv2. unfold memoised. rewrite Hh. auto. }
         simpl. split; [auto|split].
-        * eapply ext_trans; [exact E1|]. eapply ext_trans; [exact E2|].
-          eapply ext_trans; [apply ext_slot_store|apply ext_lru_store].
+        * eapply ext_w_trans; [exact E2|].
+          eapply ext_w_trans; [apply ext_w_slot_store|apply ext_w_lru_store].
         * intros qc0 ob0 H1 H2. inversion H2. subst. auto.
       + simpl. split; [auto|split].
-        * eapply ext_trans; eauto.
+        * exact E2.
         * intros qc0 ob0 H1 H2. inversion H2. subst. auto.
   Qed.
 
@@ -571,8 +759,11 @@ Section MachineProofs.
     Inv (fst (eval_list (ev (fuel0 cfg)) st o ds)) /\ ext st (fst (eval_list (ev (fuel0 cfg)) st o ds)).
   Proof.
     intros ds st o I.
-    destruct (eval_list_ok _ _ (eval_ok (fuel0 cfg)) ds st o I) as [A [B _]]; auto.
-    apply Forall_forall. intros d _. apply fuel_ranked.
+    destruct (eval_list_ok _ _ (eval_ok (fuel0 cfg)) ds st o I) as [A [B _]].
+    - apply Forall_forall. intros d _. apply fuel_ranked.
+    - split; auto. eapply ext_w_weaken; [|exact B].
+      intros f Hf. unfold Wds in Hf. apply pats_match_concat in Hf as [d [_ Hm]].
+      eapply writes_soft; eauto.
   Qed.
 
   Definition dom_eq (st st' : state) : Prop :=
@@ -755,7 +946,7 @@ Section MachineProofs.
     intros h o q a o' ob f Hw Hp.
     pose proof (exec_Inv h _ Inv_init) as I. simpl.
     destruct (eval_ok (fuel0 cfg) _ o q a false I (fuel_ranked q)) as [_ [E _]].
-    eapply ext_protected; eauto.
+    eapply ext_protected; eauto. eapply ext_w_weaken; [|exact E]. apply writes_soft.
   Qed.
 
   Theorem writer_preserves_generic : forall h o e ec o' ob f,
